@@ -563,7 +563,8 @@ class World:
                 self.check_rules(name, rules)
         elif kind == "set_default":
             name = op[1]
-            cached = {frozenset(ucd(k).items()) for k in u._base_units_cache}
+            # cache keys are unit containers, or (container, active-context key) since the repair of F7
+            cached = {frozenset(ucd(k[0] if isinstance(k, tuple) else k).items()) for k in u._base_units_cache}
 
             def setter():
                 u.default_system = name
